@@ -696,13 +696,14 @@ Lemma honest_flow o claims sel payload ds vo hb :
   forallb site_path sel = true -> closedb sel ds = true ->
   (o_v5 o = true -> akept5 o sel false [] (VObj claims) = true) ->
   issue o claims = Ok (payload, ds) ->
+  payload_time_ok vo payload = true ->
   holder_verification vo payload hb = Ok tt ->
   exists out, verify vo {| p_sig_ok := true; p_payload := payload; p_discs := choose sel ds; p_hb := hb |} = Ok out /\
               veq out (reveal o sel claims).
 Proof.
-  intros Ha Hc Hiss Hcnf Hsel Hclo Hak Hi Hhb.
+  intros Ha Hc Hiss Hcnf Hsel Hclo Hak Hi Htime Hhb.
   destruct (exact_output o claims sel payload ds Ha Hc Hiss Hcnf Hsel Hak Hi) as (Hal & y & Hy & Hveq).
-  exists y. split; [|exact Hveq]. unfold verify. cbn [p_sig_ok p_payload p_discs p_hb negb].
+  exists y. split; [|exact Hveq]. unfold verify. cbn [p_sig_ok p_payload p_discs p_hb negb]. rewrite Htime. cbn [negb].
   assert (Hn : nodupd (choose sel ds) = true).
   { apply nodupd_NoDup. apply NoDup_filter. apply (NoDup_of_map d_salt). exact (issued_nodup o claims payload ds Hc Hi). }
   rewrite Hn. cbn [negb].
